@@ -328,12 +328,15 @@ impl World {
             }
         };
         quiesce().await;
-        if self.spawner.is_some() {
-            // actors on the spawner's thread: wait (real time) until the picture stops changing
+        if let Some(sp) = self.spawner.clone() {
+            // actors on the spawner's thread: let that thread run to idle (`verif_barrier` runs a
+            // task there that yields 64 times and waits for it), then this one, and repeat until
+            // the picture did not change over four full rounds — no real-time waits, so a loaded
+            // machine cannot cut the settling short
             let mut last = self.snapshot(&r);
             let mut stable = 0;
             for _ in 0..400 {
-                tokio::time::sleep(std::time::Duration::from_millis(1)).await;
+                sp.verif_barrier(64).await;
                 quiesce().await;
                 let now = self.snapshot(&r);
                 if now == last {
